@@ -1,4 +1,4 @@
-import InfernoVerif.Model.Synapse
+import InfernoVerif.Drv.SynSpec
 import InfernoVerif.Drv.Proto
 /-
 Driver for C04 (one synapse ELEMENT per case).  Requests (doubles as 16 hex digits):
@@ -12,92 +12,12 @@ S = the specification, computed INDEPENDENTLY here: the closed-form impulse-resp
 whole input history (no ring, no recurrence), and reads "k steps ago" as plain list lookups with
 zero before the start / last clear.
 -/
-open InfernoVerif.Ring InfernoVerif.Select InfernoVerif.Synapse InfernoVerif.Gen.Wire Proto
-
-abbrev F := Float
-
-/-- Specification state: everything since construction / the last `clear`, newest first. -/
-structure Spec where
-  xs : List F := []          -- raw `inputs[0]`, newest first
-  cur : List F := []         -- closed-form current after each step (delta, delta-plus, single exp.: the current;
-                             -- double exp.: the decay component)
-  neg : List F := []         -- double exp.: the rise component
-  spk : List Bool := []
+open InfernoVerif.Ring InfernoVerif.Select InfernoVerif.Synapse InfernoVerif.SynSpec InfernoVerif.Gen.Wire Proto
 
 structure DS where
   c : Cfg F
   m : Option (St F)
   s : Spec
-
-def parseKind? : String → Option Kind
-  | "delta" => some .delta | "deltaplus" => some .deltaPlus
-  | "singleexp" => some .singleExp | "doubleexp" => some .doubleExp | _ => none
-
-def parseMode? : String → Option Mode
-  | "P" => some .previous | "N" => some .nearest | _ => none
-
-/-! ## specification side -/
-
-/-- `Σ_{k ≤ n} x_k · amp · exp(-((n-k)·dt)/tc)`; `xs` newest first, so age = list index. -/
-def impulseSum (dt tc amp : F) (xs : List F) : F :=
-  xs.zipIdx.foldl (fun acc xa => acc + xa.1 * amp * Float.exp (-(Float.ofNat xa.2 * dt) / tc)) 0.0
-
-def specStep (c : Cfg F) (s : Spec) (x : F) (inj : List F) : Spec × F × Bool :=
-  let xs := x :: s.xs
-  let sp := x != 0.0
-  match c.kind with
-  | .delta =>
-    let i := if sp then c.Q / c.dt else 0.0
-    ({ s with xs := xs, cur := i :: s.cur, spk := sp :: s.spk }, i, sp)
-  | .deltaPlus =>
-    let i := (if sp then c.Q / c.dt else 0.0) + inj.foldl (· + ·) 0.0
-    ({ s with xs := xs, cur := i :: s.cur, spk := sp :: s.spk }, i, sp)
-  | .singleExp =>
-    let i := impulseSum c.dt c.tau (c.Q / c.tau) xs
-    ({ s with xs := xs, cur := i :: s.cur, spk := sp :: s.spk }, i, sp)
-  | .doubleExp =>
-    let amp := c.Q / (c.tau - c.tauR)
-    let p := impulseSum c.dt c.tau amp xs
-    let q := impulseSum c.dt c.tauR amp xs
-    ({ xs := xs, cur := p :: s.cur, neg := q :: s.neg, spk := sp :: s.spk }, p - q, sp)
-
-/-- value `k` steps ago, `z` before the start -/
-def ago {β : Type} (h : List β) (z : β) (k : Int) : β := if k < 0 then z else h.getD k.toNat z
-
-/-- The property's reading of a time-indexed query on a history `h` (newest first): within
-tolerance of `k·dt` ⇒ the value `k` steps ago; otherwise the synapse's interpolation rule applied
-to the two bracketing steps (older, newer, time elapsed since the older one). -/
-def valueAt {β : Type} (c : Cfg F) (h : List β) (z : β) (rule : β → β → F → β) (t : F) : β :=
-  let k := floatRound (t / c.dt)
-  if Float.abs (Float.ofInt k * c.dt - t) ≤ c.tol then ago h z k
-  else
-    let kc := (Float.ceil (t / c.dt)).toInt64.toInt
-    let kf := (Float.floor (t / c.dt)).toInt64.toInt
-    rule (ago h z kc) (ago h z kf) (Float.ofInt kc * c.dt - t)
-
-/-- beyond the supported range: the configured out-of-bounds value, or the value at the limit -/
-def beyond {β : Type} (c : Cfg F) (over : Option β) (sel : F) (inside : F → β) : β :=
-  let b := if sel < 0.0 then 0.0 else if sel > c.delay then c.delay else sel
-  match over with
-  | some o => if Float.abs (sel - b) > c.tol then o else inside b
-  | none => inside b
-
-def ruleMode {β : Type} (c : Cfg F) : β → β → F → β := fun older newer elapsed =>
-  match c.mode with
-  | .previous => older
-  | .nearest => if elapsed / c.dt > 0.5 then newer else older
-
-def specAt (c : Cfg F) (s : Spec) (sel : F) : F × Bool :=
-  let spk := beyond c c.spkOver sel (valueAt c s.spk false (ruleMode c))
-  let cur := match c.kind with
-    | .delta | .deltaPlus => beyond c c.curOver sel (valueAt c s.cur 0.0 (ruleMode c))
-    | .singleExp =>
-      beyond c c.curOver sel (valueAt c s.cur 0.0 fun older _ e => older * Float.exp (-e / c.tau))
-    | .doubleExp =>
-      beyond c c.curOver sel fun t =>
-        valueAt c s.cur 0.0 (fun older _ e => older * Float.exp (-e / c.tau)) t
-        - valueAt c s.neg 0.0 (fun older _ e => older * Float.exp (-e / c.tauR)) t
-  (cur, spk)
 
 /-! ## protocol -/
 
